@@ -17,5 +17,8 @@ def run(rep, tier):
     kernels.run_generators(rep, ["reorder_vector", "reorder_matrix", "trace_out_vector", "trace_out_matrix"])
     B.run_b(rep, morecells.trace_out_cells(tier, common.seed()), ["C02"], tier=tier)
     B.run_b(rep, morecells.structural_cells(tier, common.seed()), ["C02"], tier=tier)
+    if tier == "thorough":
+        from vf.rtc import histories
+        B.run_b(rep, histories.history_cells(tier, common.seed()), ["C02", "C08"], explore=True, tier=tier)
     extra = [c for c in morecells.three_space_cells(tier, common.seed()) + morecells.stale_cache_cells(tier, common.seed()) if c["action"]["kind"] in ("structural", "trace_out")]
     B.run_b(rep, extra, ["C02"], tier=tier)
